@@ -233,6 +233,10 @@ pub fn strategy(thorough: bool) -> BoxedStrategy<Case> {
                 cfg.tx = cfg.tx.max(if tx_mode == 0 { need.min(2_200_000) + 64 } else { 64 });
             }
             let mut steps: Vec<Step> = Vec::new();
+            // acknowledgements are outbound packets too: one inbound QoS 1 and one QoS 2 exchange
+            steps.push(Step::Broker(BrokerAct::Deliver { qos: 1, retain: false, topic: TopicSpec::new(2, 1), payload: PayloadSpec::new(2, 1), props: vec![], redeliver: None }));
+            steps.push(Step::Broker(BrokerAct::Deliver { qos: 2, retain: true, topic: TopicSpec::new(2, 2), payload: PayloadSpec::new(2, 2), props: vec![], redeliver: None }));
+            steps.push(Step::PollIdle { max: 12 });
             for o in ops {
                 steps.push(o);
                 // keep the arena empty between requests so that success is predictable
@@ -275,6 +279,13 @@ pub fn eval(case: &Case) -> Out {
     let trace = run_case(case);
     let view = View::build(&trace);
     let (mut viol, _) = Model::run(case, &view);
+    // what the broker decodes from the client's acknowledgements (identifier, reason class, order)
+    for v in viol.iter_mut() {
+        if v.prop == "C04" && (v.sig.starts_with("C04/unexpected-ack") || v.sig.starts_with("C04/ack-reason") || v.sig.starts_with("C04/ack-order") || v.sig.starts_with("C04/ack-not-sent")) {
+            v.prop = "C09";
+            v.sig = format!("C09/acknowledgement/{}", v.sig);
+        }
+    }
     viol.retain(|v| v.prop == "C09" || v.prop == "PANIC");
     let mut boundary = false;
     let mut too_long = false;
